@@ -41,10 +41,13 @@ structure Conforms (s : St) (T : TState) : Prop where
 inductive Chk where
   | nan                      -- float arithmetic (not a failure)
   | outOfModel               -- function call, `del({…}.a)`
-  | structural               -- literal containers, unsorted object keys, undefined variable read, scope
-  | ctorPoststate            -- a constructor check (boolean predicate / `!` operand / `|` operands /
-                             --   `abort` message / infallible `return`, argument) fails in the state
-                             --   `type_info` uses                                  (D_ctor_poststate)
+  | structural               -- literal containers, unsorted object keys, undefined variable read, scope;
+                             --   the checks of `Predicate::new` / `Not::new` / `Op::new` (boolean predicate,
+                             --   boolean operand of `!`, object operands of `|`): since d43fc03 they are made
+                             --   in the very state `type_info` uses, so every compiled tree passes them
+  | ctorPoststate            -- a constructor check still made in the state AFTER the operand was compiled
+                             --   (`abort` message / infallible `return` / `compact` argument of `del`) fails
+                             --   in the state `type_info` uses                      (D_ctor_poststate)
   | kindUnion                -- `Kind::union` outside the C19 theorem (unsorted / non-`any` Infinite)
   | kindAt                   -- `Kind::at_path` outside the C19 theorem           (C19 atClass)
   | negIndex                 -- `Kind::insert` at a negative index (no C19 theorem; D_neg_insert_exact_noshift …)
@@ -220,7 +223,7 @@ def opChecks (o : Opcode) (l : TypeDef) (lv : Option Value) (T1 : TState) (r : T
       chk .kindUnion (unionOk lu.kind.withoutNull r.kind) ++
         chk .kindUnion (unionOk l.returns r.returns) ++ mergeChecks T1 Tr
   | .merge =>
-    chk .ctorPoststate (l.kind.isObject && r.kind.isObject) ++ chk .kindMerge (mergeOk l.kind r.kind) ++
+    chk .structural (l.kind.isObject && r.kind.isObject) ++ chk .kindMerge (mergeOk l.kind r.kind) ++
       chk .kindUnion (unionOk l.returns r.returns)
   | .and =>
     if l.kind.isNull || optValueEq lv (some (.bool false)) then []
@@ -284,7 +287,7 @@ mutual
       let ifT : TState := scopedState p.2.locals t.2
       let e := typeSeq els p.2 {}
       let elT : TState := scopedState p.2.locals e.2
-      checksSeq pred T {} ++ chk .ctorPoststate (p.1.finish.kind.isBoolean && !p.1.finish.fallible) ++
+      checksSeq pred T {} ++ chk .structural (p.1.finish.kind.isBoolean && !p.1.finish.fallible) ++
       checksSeq thn p.2 {} ++
       chk .structural (p.2.locals.all fun (n, _) => (t.2.getVar n).isSome) ++
       (if hasElse then
@@ -317,7 +320,7 @@ mutual
       chk .structural (T.getVar n).isSome ++ chk .kindAt (atOk (varDef T n).kind p)
     | .qexpr e p, T => checks e T ++ chk .kindAt (atOk (typeInfo e T).1.kind p)
     | .var n, T => chk .structural (T.getVar n).isSome
-    | .not e, T => checks e T ++ chk .ctorPoststate (typeInfo e T).1.kind.isBoolean
+    | .not e, T => checks e T ++ chk .structural (typeInfo e T).1.kind.isBoolean
     | .abort hasMsg msg, T =>
       if hasMsg then
         checks msg T ++
